@@ -1,6 +1,6 @@
 (* C05 — tight packing: padding only where alignment demands it. *)
 From Coq Require Import ZArith List Bool.
-From Cntgs Require Import Base BaseLemmas Layout LayoutThm Spec Rep EsizeThm.
+From Cntgs Require Import Base BaseLemmas Layout LayoutThm Mem Vector Spec Rep EsizeThm Refine TightThm.
 Import ListNotations.
 Local Open Scope Z_scope.
 
@@ -42,3 +42,27 @@ Theorem C05_elements_tightly_packed : forall L cnts a,
   (SA L | first_align L e) /\ e <= first_align L e /\ first_align L e = align_up e (SA L).
 Proof. exact first_align_end. Qed.
 Print Assumptions C05_elements_tightly_packed.
+
+(* HISTORY level: in every represented state element i starts exactly at
+   align_for_first_parameter(end of element i-1) - element 0 at the start of the block -
+   and data_end() is the end of the last element or the aligned address behind it ... *)
+Theorem C05_represented_states_are_tightly_packed : forall L v l, wf_plist L = true -> Rep L v l ->
+  (forall i, (i < length l)%nat -> eaddr L v (Z.of_nat i) = first_align L (prev_end L v l i)) /\
+  (dend L v = prev_end L v l (length l) \/ dend L v = first_align L (prev_end L v l (length l))).
+Proof. exact rep_positions_tight. Qed.
+Print Assumptions C05_represented_states_are_tightly_packed.
+
+(* ... hence after EVERY valid history of emplace_back / pop_back / erase / erase(first,last) /
+   clear / reserve from construction (trivially relocatable value types): no operation
+   leaves a gap between two elements, whatever was erased before whatever was emplaced *)
+Theorem C05_every_history_tightly_packed : forall L cap budget fixed aid junk bid tbid h,
+  wf_plist L = true -> all_triv L = true -> 0 <= cap -> Forall (fun c => 0 <= c) fixed ->
+  let v0 := fst (mkvec L cap budget fixed aid junk bid tbid) in
+  let s0 := {| s_cap := cap; s_elems := [] |} in
+  shist_valid L (fixed_counts L fixed) s0 h ->
+  let v := vrun L junk v0 h in
+  let l := s_elems (srun s0 h) in
+  (forall i, (i < length l)%nat -> eaddr L v (Z.of_nat i) = first_align L (prev_end L v l i)) /\
+  (dend L v = prev_end L v l (length l) \/ dend L v = first_align L (prev_end L v l (length l))).
+Proof. exact tight_every_history. Qed.
+Print Assumptions C05_every_history_tightly_packed.
